@@ -106,7 +106,7 @@ def run(ck):
     scen.append(("pkg/uc7_config.yaml + 3 starting nodes", {"kind": "file", "path": world.PKG + "/uc7_config.yaml"}, ck.n(14, 60), UC7_NODES))
     if not ck.quick:
         scen.append(("pkg/uc7_config_tap003.yaml", {"kind": "file", "path": world.PKG + "/uc7_config_tap003.yaml"}, 40, UC7_NODES))
-        scen.append(("pkg/data_manipulation_marl.yaml", {"kind": "file", "path": world.PKG + "/data_manipulation_marl.yaml"}, 40, None))
+        pass    # data_manipulation_marl.yaml has two learning agents: not a PrimaiteGymEnv scenario
     variants = [("hash0", 0, False), ("hash1", 1, False), ("hash12345", 12345, True), ("hash0", 0, True)]
     if not ck.quick:
         variants += [("hashrandom", "random", False), ("hash777", 777, True)]
